@@ -124,9 +124,20 @@ def _arr_binop(ufunc, a, b):
     return ufunc(a, b)
 
 
+def _scalar_array_ufunc(self, ufunc, method, *inputs, **kw):
+    """ufunc applied to a bare symbolic scalar (np.sign(x), float_array * x, ...)."""
+    from .symarr import SymArr, wrap0
+    ins = [wrap0(x).view(SymArr) if isinstance(x, (SR, SB, SC)) else x for x in inputs]
+    first = [x for x in ins if isinstance(x, SymArr)][0]
+    res = SymArr.__array_ufunc__(first, ufunc, method, *ins, **kw)
+    if isinstance(res, np.ndarray) and res.ndim == 0:
+        return res[()]
+    return res
+
+
 class SR(object):
     __slots__ = ('p', '_z')
-    __array_ufunc__ = None
+    __array_ufunc__ = _scalar_array_ufunc
     __array_priority__ = 1000
 
     def __init__(self, p):
@@ -456,7 +467,7 @@ def as_sr(o):
 # ---------------------------------------------------------------------------------
 class SB(object):
     __slots__ = ('z',)
-    __array_ufunc__ = None
+    __array_ufunc__ = _scalar_array_ufunc
     __array_priority__ = 1000
 
     def __init__(self, z):
@@ -757,7 +768,7 @@ def sym_trunc(x):
 # ---------------------------------------------------------------------------------
 class SC(object):
     __slots__ = ('re', 'im')
-    __array_ufunc__ = None
+    __array_ufunc__ = _scalar_array_ufunc
     __array_priority__ = 1000
 
     def __init__(self, re, im):
